@@ -258,9 +258,16 @@ def time_limit_runs(cfg, limits):
         try:
             while spec is None and tries < 400:
                 tries += 1
+                # after two interruptions, odd limits go on without a limit (only where the uninterrupted search ends with a
+                # specification, so that the call returns): a limit of an earlier call must not be in force any more
+                unlimited = interrupted >= 2 and limit % 2 == 1 and ref == "spec"
                 try:
-                    spec = s.auto_search(max_expansion_time=limit, perc=cfg["perc"])
+                    spec = s.auto_search(perc=cfg["perc"]) if unlimited else s.auto_search(max_expansion_time=limit, perc=cfg["perc"])
                 except ExceededMaxtimeError:
+                    if unlimited:
+                        problems.append(("call-without-a-time-limit-raises-ExceededMaxtimeError",
+                                         f"after {interrupted} calls interrupted by the limit {limit}"))
+                        break
                     interrupted += 1
                 except SpecificationNotFound:
                     # the queue signalled exhaustion: every label that was handed out at all, is not stopped and not verified,
